@@ -31,7 +31,7 @@ Section Seq.
   Lemma rep_shift : forall m l k, rep m l -> rep (m + k) l.
   Proof.
     intros m l k H. unfold rep in *.
-    replace (m + k + l)%nat with (m + l + k)%nat by lia. rewrite !sq_add. rewrite H. reflexivity.
+    replace (m + k + l)%nat with (m + l + k)%nat by lia. rewrite (sq_add (m + l) k), (sq_add m k), H. reflexivity.
   Qed.
 
   Lemma rep_mul : forall m l k, rep m l -> rep m (k * l).
@@ -71,7 +71,7 @@ Section Seq.
     pose proof (rep_shift m l0 l H0) as Ha. unfold rep in Ha.
     rewrite <- Ha.
     replace (m + l + l0)%nat with (m + 1 + l + (l0 - 1))%nat by lia.
-    rewrite sq_add, H1, <- sq_add.
+    rewrite (sq_add (m + 1 + l) (l0 - 1)), H1, <- sq_add.
     replace (m + 1 + (l0 - 1))%nat with (m + l0)%nat by lia. exact H0.
   Qed.
 
@@ -126,7 +126,6 @@ Proof.
         apply (IH _ _ _ _ _ (t + N.to_nat lam)%nat) in H; try assumption; try lia.
         -- rewrite En, Hh. replace (t + N.to_nat lam + N.to_nat (0 + 1))%nat with (S (t + N.to_nat lam)) by lia.
            symmetry. apply sq_succ.
-        -- intros l' Hl'. lia.
       * destruct (nd_all b den hare) as [nh| |] eqn:En; cbn [bind] in H; try discriminate.
         apply nd_all_step in En.
         apply (IH _ _ _ _ _ t) in H; try assumption; try lia.
